@@ -2,5 +2,5 @@ SPECIFICATION Spec
 CONSTANTS
   MaxK = 3
   MaxItems = 6
-INVARIANTS Inv_C08 Inv_EndsAfterInterrupt Inv_Transparent Inv_IntItemOnlyFinish
+INVARIANTS Inv_C08 Inv_EndsAfterInterrupt Inv_Transparent Inv_IntItemOnlyFinish Inv_Callbacks
 CHECK_DEADLOCK FALSE
